@@ -27,6 +27,9 @@ def q(v, U, exact, floor=False):
     return int(f)
 
 
+DOC_DEFAULTS = {"nodeSpacing": 3, "minPos": 0, "maxPos": None, "algorithm": "overlap", "density": 0.85, "stubWidth": 1}
+
+
 def project(force, nodes, labels, opts, U, lattice):
     """Observation after force.compute(): public attributes only.  Lattice instances are projected exactly in quarter units; if
     the code left a value that is not on the lattice (positions are normally integers), the projection falls back to units of
@@ -111,7 +114,9 @@ def _project(force, nodes, labels, opts, U, lattice, exact):
         row.sort(key=lambda x: (x[0], x[2]["p"]))
         row.sort(key=lambda x: x[2]["t"])
         out_layers.append([it for _, _, it in row])
-    o = force.options
+    # the configuration the CALLER asked for (documented defaults for what was never passed), not the engine's own report
+    o = dict(DOC_DEFAULTS)
+    o.update(opts if opts is not None else force.options)
     dens = Fraction(str(o["density"]))
     rec = {
         "U": U, "lattice": 1 if lattice else 0, "order": hasrep,
@@ -175,29 +180,48 @@ def run_relayout(rng):
     labels = [tuple(x) for x in inst["labels"]]
     nodes = [Node(_num(a), _num(w), {"id": i + 1}) for i, (a, w) in enumerate(labels)]
     first = dict(inst["opts"])
-    base = first["minPos"] if first["minPos"] is not None else 0
-    first["maxPos"] = base + rng.choice([10, 50, 100.5])     # narrow: forces several layers
-    f = Force(first)
-    f.nodes(list(nodes))
+    intended = None
     try:
-        f.compute()
-        delta = {"maxPos": inst["opts"]["maxPos"], "stubWidth": rng.choice([0, 1, 2.5]), "nodeSpacing": rng.choice([0, 1, 3])}
-        if rng.random() < 0.3:
-            delta["algorithm"] = rng.choice(["overlap", "simple", "none"])
-        if rng.random() < 0.5:
-            f.set_options(delta)
+        if rng.random() < 0.35:
+            # the configuration handed over piecemeal: constructor + one or two set_options() calls, keys that equal the
+            # documented default sometimes never passed at all; nothing computed in between
+            full = dict(inst["opts"])
+            keys = [k for k in full if not (full[k] == DOC_DEFAULTS[k] and rng.random() < 0.5)]
+            rng.shuffle(keys)
+            cuts = sorted(rng.sample(range(len(keys) + 1), 2))
+            parts = [keys[:cuts[0]], keys[cuts[0]:cuts[1]], keys[cuts[1]:]]
+            f = Force({k: full[k] for k in parts[0]} if parts[0] or rng.random() < 0.5 else None)
+            for part in parts[1:]:
+                if part or rng.random() < 0.3:
+                    f.set_options({k: full[k] for k in part})
+            f.nodes(list(nodes))
             f.compute()
+            intended = {k: full[k] for k in keys}
         else:
-            opts2 = dict(first)
-            opts2.update(delta)
-            f = Force(opts2)
-            f.nodes(list(nodes) if rng.random() < 0.5 else list(reversed(nodes)))
+            base = first["minPos"] if first["minPos"] is not None else 0
+            first["maxPos"] = base + rng.choice([10, 50, 100.5])     # narrow: forces several layers
+            f = Force(first)
+            f.nodes(list(nodes))
             f.compute()
+            delta = {"maxPos": inst["opts"]["maxPos"], "stubWidth": rng.choice([0, 1, 2.5]), "nodeSpacing": rng.choice([0, 1, 3])}
+            if rng.random() < 0.3:
+                delta["algorithm"] = rng.choice(["overlap", "simple", "none"])
+            if rng.random() < 0.3:
+                delta.pop("nodeSpacing")
+            intended = dict(first)
+            intended.update(delta)
+            if rng.random() < 0.5:
+                f.set_options(delta)
+                f.compute()
+            else:
+                f = Force(dict(intended))
+                f.nodes(list(nodes) if rng.random() < 0.5 else list(reversed(nodes)))
+                f.compute()
     except RecursionError:
         return {"error": "RecursionError", "n": len(labels)}
     except Exception as ex:
         return {"error": type(ex).__name__, "n": len(labels), "instance": {"labels": [list(x) for x in labels], "opts": first, "relayout": True}}
-    rec = project(f, nodes, labels, None, 4, True)
+    rec = project(f, nodes, labels, intended, 4, True)
     rec["fresh"] = 0
     return rec
 
